@@ -15,6 +15,9 @@ type Check struct {
 	// Replay re-executes a recorded path of kind `kind` without the explorer and returns the
 	// violation it reproduces (nil if none).
 	Replay func(kind string, path []string) ([]string, *engine.Violation, error)
+	// FreshProcessReplay: the property is about independence from what the process did earlier, so
+	// a violation is confirmed by replaying it in two fresh processes, not inside this one.
+	FreshProcessReplay bool
 }
 
 var registry = map[string]*Check{}
